@@ -39,6 +39,11 @@ CLAIMED = {
    text="Unbounded Coq theorems: for every build profile, window buffer, window width (any usize), destination rectangle (inverted, outside, 65535-sized), image stride and decoded image of any length, the model of fast_bitmap_transfer returns Ok or Err, never panics/spins, and no raw copy leaves the image or the window buffer; for a rectangle inside the window with enough image rows it succeeds and the buffer equals the exact 2-D copy and is unchanged elsewhere; on Err exactly the first k complete rows were copied (InvalidSize), nothing outside the rows' footprint ever changes; inverted rectangles and decoder errors leave the buffer untouched. The model (coq/Blit.v, the code as repaired by two fix commits) is tied to /repo on every run by executing the extracted model and the real function (src/bin/mstsc-rs.rs included as a module in harness-gui, debug and release) on every rectangle with coordinates in -1..9 over windows up to 8x8 with images equal/smaller/larger than the rectangle, absurd widths, 16-bit extremes and random larger windows, with canary regions and poisoned surroundings exposing out-of-bounds writes and reads, and by an independent Python exact-copy oracle.",
    design_ref="DESIGN.md section 6, C19",
    note="Trusted: Coq kernel, extraction (ExtrOcamlBasic), OCaml driver, harness-gui (canaries, padding allocator, 1 cfg hook). Not modelled: transmute_vec's re-typing of the Vec<u8> allocation (layout UB), only its len/4 little-endian view; BitmapEvent::decompress (C08/C09) - cases carry the decoded image. Vec length < 2^62 is a hypothesis."),
+ "C05": dict(
+   technique="Coq proof (generic safety theorem of the message interpreter + reflective per-layout obligations + case analysis of the glue + Hoare-style invariant over the connect run) of an executable model; model tied to /repo by differential correspondence and an independent no-crash/allocation oracle",
+   text="Unbounded Coq theorems: for every build profile, every client configuration (offered protocols, authenticator present or not, restricted admin, either HashMap order of the channel joins) and every chunked stream of server bytes, the model of x224::Client::connect + mcs::Client::connect + sec::connect/license::client_connect (as Connector::connect composes them) returns Ok or Err, never Panic or Spin, and sizes no buffer from the wire above 2*65535 bytes; the same for each parser entry (connection confirm, connect-response/GCC, attach and join confirms, security header + licence) on all byte strings. External code (yasna BER parser, TLS handshake, CredSSP) is universally quantified under the assumption that it returns Ok/Err and hands on bytes. The model is tied to /repo on every run by executing the extracted model and the real layer clients AND the public Connector::connect over an in-memory scripted server on the same cases (valid conversation, then every value of every byte, boundary sets of every 16/32-bit field incl. k-1,k for each subtracted k, truncations, extensions, BER length/tag forms, GCC block sets, all byte strings of length <=2 at every parser entry, random corruption; debug and release), diffed line by line, plus an oracle on the implementation (no panic/abort/spin, largest allocation).",
+   design_ref="DESIGN.md section 6, C05-C07",
+   note="Trusted: Coq kernel (+vm_compute), extraction, OCaml driver, Rust harness + counting allocator, gen/rdpconn.py; layouts and glue hand-written, validated by correspondence. Modelled not verified: yasna (model from source, coq/BerYasna.v), native-tls, CredSSP, HashMap order. KNOWN FINDING C05-yasna-length-overflow: yasna 0.3.2 itself panics on a BER length >= 2^64-pos (both profiles); the theorems hold for the real client only as far as its BER parser does not unwind; refutation lemma C05_ber_oracle_refuted. Four defects (#5 unwrap part, #7, #8, #9) repaired by fix: commits; model is of the repaired code."),
 }
 
 NOT_YET = {}
